@@ -42,7 +42,7 @@ def gen_cases(rng, tier):
             extra = [rng.choice([1, 127, 128, 254, rng.randint(0, 255)])] if kind == 1 else []
         cases.append(px_case(kind, mode, hq, rng.random() < 0.5, rand_color(rng), has_mask, x0, ln, row, extra))
     # shader-produced sources: pattern / draw_pixmap with bilinear and bicubic filtering (overshoot next to translucent pixels)
-    for s_, a_ in _c16.gen_cases(rng, tier)[:600 if tier == "quick" else 8000]:
+    for s_, a_ in [c for c in _c16.gen_cases(rng, tier) if c[0] == "pat_px"][:600 if tier == "quick" else 8000]:
         a_ = list(a_)
         a_[14] = rng.choice([1, 2, 2])      # bilinear / bicubic
         a_[4] = 0                           # random contents
